@@ -8,7 +8,7 @@ ID = 'C04'
 HARNESS_BIN = 'c04'
 RUN_MODULE = 'Run.C04'
 COQ_EXTRA = []
-THEOREMS = ['C04_lookup_sound', 'C04_input_digest_sound', 'C04_pp_key_parts_sound', 'C04_add_result_all_or_nothing', 'C04_lookup_sound_window', 'C04_cwd_in_pp_key', 'C04_record_sound', 'C04_record_instant_sound', 'C04_scan_exact', 'C04_scan_no_false_negative',
+THEOREMS = ['C04_lookup_sound', 'C04_input_digest_sound', 'C04_pp_key_parts_sound', 'C04_add_result_all_or_nothing', 'C04_lookup_sound_window', 'C04_no_stat_for_new_files', 'C04_marker_recorded', 'C04_cwd_in_pp_key', 'C04_record_sound', 'C04_record_instant_sound', 'C04_scan_exact', 'C04_scan_no_false_negative',
             'C04_scan_chunk_independent', 'C04_digest_chunk_independent', 'C04_mode_equivalence', 'C04_markers_complete']
 ASSUMPTIONS = [
     'BLAKE3 is modelled as an injective function H on file contents and an injective function HT on the '
@@ -37,7 +37,11 @@ ASSUMPTIONS = [
     'C04_cwd_in_pp_key is about the argument list built by generate_hash_key (Model/PpCache.v prelude_pp_args); that the '
     'working directory is pushed under hash_working_directory and no other condition is the translated side condition '
     'prelude_cwd_guard_ok; C04_lookup_sound_window allows files to be REMOVED between the include recorder and '
-    'add_result (sub_fs); files rewritten in that window are the subject of C04_record_instant_sound',
+    'add_result, or REWRITTEN provided the new file carries mtime or ctime >= the start instant (win_ok; why that holds is '
+    'C04_record_instant_sound); C04_no_stat_for_new_files is the should_cache_time rule of add_result',
+    'the DATE of a snapshot is the LOCAL calendar day of the server (what the compiler expands __DATE__ from) plus '
+    'SOURCE_DATE_EPOCH; it is an opaque value in the model, and the ppcache leg varies it through SOURCE_DATE_EPOCH and '
+    'through the time zone (TZ = UTC-12 / UTC+14, whose local days always differ)',
     'C04_markers_complete covers outputs made of `# N "path" flags` and body lines (wf_line); the `#line` / '
     '`#pragma GCC pch_preprocess` syntaxes, the GCC-6 # 31/# 32 lines, .incbin and distcc-pump chatter are modelled '
     '(Model/LineMarker.v) and checked differentially only',
@@ -545,7 +549,8 @@ def gen_edit(rng, sim, j, name):
     return [name, 1, b'', m, 0], 'to_dir'
 
 
-def gen_ppcache_case(rng):
+def gen_ppcache_case(rng, dates=None, contents=None):
+    dates = dates or DATES
     sim = FsSim()
     steps = []
     nrec = rng.weighted([(1, 7), (2, 3), (3, 1)])
@@ -594,7 +599,7 @@ def gen_ppcache_case(rng):
         incs = rng.shuffle(incs)
         fresh = 1 if (r == 0 or rng.chance(1, 2)) else 0
         key = rng.choice([b'k0', b'k1', b'k2']) if r else b'k1'
-        step = [b'rec', fresh, rng.choice(DATES), key, incs, files]
+        step = [b'rec', fresh, rng.choice(dates), key, incs, files]
         if rng.chance(1, 7):
             # the window of generate_hash_key: a recorded header is removed after the recorder hashed it and before
             # add_result stats it; it comes back later (gen_edit: 'create')
@@ -606,6 +611,18 @@ def gen_ppcache_case(rng):
                 step.append(gone)
                 for g in gone:
                     sim.files.pop(g, None)
+        elif rng.chance(1, 6):
+            # ... or REWRITTEN in that window (after the start instant), typically at the same size and possibly with
+            # the old mtime restored: add_result must not store its new stat data next to the old digest
+            present = [h for h in hdrs if sim.regular(h)]
+            if present:
+                h = rng.choice(present)
+                f = sim.regular(h)
+                same = [c for c in BY_LEN.get(len(f['bytes']), []) if c != f['bytes']]
+                nb = rng.choice(same) if same and rng.chance(4, 5) else rng.choice(CONTENTS)
+                ent = [h, 0, nb, f['mtime'] if rng.chance(1, 2) else mt(rng.choice([-5, 0, 1]), j), 1]
+                step.append([ent])
+                sim.apply(j, [ent], True)
         steps.append(step)
         j += 1
     for l in range(nlook):
@@ -614,7 +631,7 @@ def gen_ppcache_case(rng):
             e, _tag = gen_edit(rng, sim, j, rng.choice(hdrs + ([b'sys.h'] if b'sys.h' in sim.files else [])))
             files = [f for f in files if f[0] != e[0]] + [e]
         sim.apply(j, files, False)
-        steps.append([b'look', rng.choice(DATES), files])
+        steps.append([b'look', rng.choice(dates), files])
         j += 1
     return steps
 
@@ -631,9 +648,25 @@ def gen_limits_case(n, nhdr):
     return steps
 
 
+DATES_TZ = [b'@A', b'@A', b'@B']      # the server's time zone: UTC-12 / UTC+14, i.e. two different LOCAL calendar days
+
+
 def gen_ppcache(rng, tier):
     n = 2500 if tier == 'quick' else 30000
-    out = [gen_ppcache_case(rng) for _ in range(n)]
+    # the calendar day behind __DATE__ is the LOCAL one: a few cases run the server in two time zones (each switch costs
+    # the harness 1.25 s, chrono caches TZ for a second); generated from their own PRNG stream, placed first
+    rtz = rng.fork('tz')
+    ntz = 24 if tier == 'quick' else 160
+    out = []
+    for _ in range(ntz):
+        c = gen_ppcache_case(rtz, dates=DATES_TZ)
+        # make a recorded header mention __DATE__ (otherwise the day does not matter)
+        for f in c[0][5]:
+            if f[1] == 0 and f[0] in HEADERS:
+                f[2] = rtz.choice([b'// __DATE__\nint a;\n', b'__DATE__', b'__DATE__ __TIMESTAMP__ 1', b'int a;\n'])
+                break
+        out.append(c)
+    out += [gen_ppcache_case(rng) for _ in range(n)]
     out.append(gen_limits_case(104, 2))
     if tier != 'quick':
         out.append(gen_limits_case(103, 101))
@@ -652,8 +685,11 @@ def pp_walk(case):
             sim.apply(j, st[2], False)
         yield j, st, before, {k: dict(v) for k, v in sim.files.items()}
         if st[0] == b'rec' and len(st) > 6:
-            for name in st[6]:
-                sim.files.pop(name, None)
+            for v in st[6]:
+                if isinstance(v, list):
+                    sim.apply(j, [v], True)      # rewritten in the window (cnew = 1: after the start instant)
+                else:
+                    sim.files.pop(v, None)
 
 
 def mon_ppcache(case, out):
@@ -683,7 +719,7 @@ def mon_ppcache(case, out):
                     if extra:
                         vs.append('config %d step %d: %s could not be stat\'ed any more when the result was added, but a result '
                                   'was stored anyway: %s (before: %s) - the missing header will never be checked by a lookup'
-                                  % (ci, j, [n.decode() for n in st[6]] if len(st) > 6 else '?',
+                                  % (ci, j, [n.decode() if isinstance(n, bytes) else n[0].decode() for n in st[6]] if len(st) > 6 else '?',
                                      [(k.decode(), n) for k, n in extra], [(k.decode(), n) for k, n in prev_view]))
                 prev_view = view
                 if o[1] == b'ok':
@@ -737,8 +773,12 @@ def mon_ppcache(case, out):
 
 def edit_tags(case):
     tags = []
-    if any(st[0] == b'rec' and len(st) > 6 and st[6] for st in case):
-        tags.append('vanish_before_add_result')
+    for st in case:
+        if st[0] == b'rec' and len(st) > 6:
+            for v in st[6]:
+                tags.append('rewritten_before_add_result' if isinstance(v, list) else 'vanish_before_add_result')
+    if any(st[0 if False else 2 if st[0] == b'rec' else 1][:1] == b'@' for st in case):
+        tags.append('time_zone_dates')
     for j, st, before, after in pp_walk(case):
         files = st[5] if st[0] == b'rec' else st[2]
         if j == 0:
@@ -885,6 +925,33 @@ def lm_line(rng):
     return b''
 
 
+def gen_lm_suffix(rng, n):
+    """the wrapper idiom: the input is sub/x.c (relative to the working directory) and includes "../x.c" - a file whose
+    path relative to the working directory is a component-wise SUFFIX of the input path but which is not the input"""
+    out = []
+    old = LM_START - 10
+    for _ in range(n):
+        cwd = R0 + b'/w'
+        depth = rng.choice([[b'sub'], [b'arch', b'sub'], [b'gen']])
+        inp = cwd + b'/' + b'/'.join(depth) + b'/x.c'
+        files = [[inp, 0, b'#include "../x.c"\n', old, 0],
+                 [cwd + b'/x.c', 0, rng.choice(CONTENTS[:5]), old, 0],
+                 [cwd + b'/' + depth[-1] + b'/x.c', 0, rng.choice(CONTENTS[:5]), old, 0],
+                 [cwd + b'/' + b'/'.join(depth) + b'/tune.h', 0, b'#define TUNE 10\n', old, 0],
+                 [cwd, 1, b'', old, 0]]
+        files = [f for i, f in enumerate(files) if f[0] not in [g[0] for g in files[:i]]]
+        rel = b'/'.join(depth) + b'/x.c'
+        paths = [rel, b'x.c', depth[-1] + b'/x.c', b'/'.join(depth) + b'/../x.c', b'./x.c', b'./' + rel,
+                 b'/'.join(depth) + b'/tune.h', inp, cwd + b'/x.c', b'<built-in>']
+        lines = [b'# 1 "%s"' % rel]
+        for _ in range(rng.range(1, 6)):
+            lines.append(b'# %d "%s"%s' % (rng.range(1, 30), rng.choice(paths), rng.choice([b'', b' 1', b' 2'])))
+            if rng.chance(1, 2):
+                lines.append(rng.choice([b'int value = TUNE + 1;', b'', b'extern int f(void);']))
+        out.append([rng.choice([9, 8, 11, 13]), LM_START, b'', cwd, inp, b'\n'.join(lines) + b'\n', files])
+    return out
+
+
 def gen_lm_random(rng, n):
     out = []
     for _ in range(n):
@@ -941,7 +1008,8 @@ def gen_lm_real(rng, tier):
 
 
 def gen_linemarker(rng, tier):
-    return gen_lm_real(rng, tier) + gen_lm_random(rng, 3000 if tier == 'quick' else 40000)
+    return (gen_lm_real(rng, tier) + gen_lm_random(rng, 3000 if tier == 'quick' else 40000)
+            + gen_lm_suffix(rng.fork('suffix'), 400 if tier == 'quick' else 4000))
 
 
 def lm_markers(text):
